@@ -17,6 +17,7 @@ package redis
 import (
 	"errors"
 	"fmt"
+	"math"
 	"regexp"
 	"strconv"
 	"strings"
@@ -27,6 +28,12 @@ import (
 )
 
 // General argument fuctions
+
+const (
+	// maxExpireSeconds and maxExpireMilliseconds are the largest expiry values that fit into a time.Duration.
+	maxExpireSeconds      = math.MaxInt64 / int(time.Second)
+	maxExpireMilliseconds = math.MaxInt64 / int(time.Millisecond)
+)
 
 func nextIntegerArgument(cmd string, name string, args Arguments) (int, error) {
 	val, err := args.NextInteger()
@@ -126,6 +133,9 @@ func nextSetExArguments(cmd string, args Arguments) (string, int, string, error)
 	if seconds < 1 {
 		return "", 0, "", newInvalidArgumentError(cmd, "seconds", fmt.Errorf(errorShouldBeGreaterThanInt, "argument", 0))
 	}
+	if maxExpireSeconds < seconds {
+		return "", 0, "", newInvalidArgumentError(cmd, "seconds", fmt.Errorf(errorShouldBeLessThanInt, "argument", maxExpireSeconds))
+	}
 	val, err := args.NextString()
 	if err != nil {
 		return "", 0, "", newMissingArgumentError(cmd, "value", err)
@@ -181,8 +191,14 @@ func nextSetOptionArguments(cmd string, args Arguments) (SetOption, error) {
 			}
 			switch argStr {
 			case "EX":
+				if maxExpireSeconds < argInt {
+					return opt, newInvalidArgumentError(cmd, argStr, fmt.Errorf(errorShouldBeLessThanInt, "expire", maxExpireSeconds))
+				}
 				opt.EX = time.Duration(argInt) * time.Second
 			case "PX":
+				if maxExpireMilliseconds < argInt {
+					return opt, newInvalidArgumentError(cmd, argStr, fmt.Errorf(errorShouldBeLessThanInt, "expire", maxExpireMilliseconds))
+				}
 				opt.PX = time.Duration(argInt) * time.Millisecond
 			case "EXAT":
 				opt.EXAT = time.Unix(int64(argInt), 0)
